@@ -1,9 +1,13 @@
 package commands
 
 import (
+	"strings"
+
 	"github.com/spf13/cobra"
 
 	"github.com/MichaelMure/git-bug/commands/execenv"
+	"github.com/MichaelMure/git-bug/entities/bug"
+	"github.com/MichaelMure/git-bug/entities/identity"
 )
 
 func newWipeCommand(env *execenv.Env) *cobra.Command {
@@ -27,16 +31,52 @@ func runWipe(env *execenv.Env) error {
 		return err
 	}
 
-	env.Out.Println("cleaning git config ...")
-	err = env.Backend.ClearUserIdentity()
+	// RemoveAll only knows the entities that exist locally: also drop what is left of the
+	// remote tracking refs (entities fetched but never merged, or removed locally).
+	remoteRefs, err := env.Repo.ListRefs("refs/remotes/")
 	if err != nil {
 		_ = env.Backend.Close()
 		return err
 	}
-	err = env.Backend.LocalConfig().RemoveAll("git-bug")
+	for _, ref := range remoteRefs {
+		// refs/remotes/<remote>/<namespace>/<id>
+		split := strings.Split(ref, "/")
+		if len(split) != 5 || (split[3] != bug.Namespace && split[3] != identity.Namespace) {
+			continue
+		}
+		err = env.Repo.RemoveRef(ref)
+		if err != nil {
+			_ = env.Backend.Close()
+			return err
+		}
+	}
+
+	env.Out.Println("cleaning git config ...")
+	// removing a setting that doesn't exist is an error for the config, so only remove what is there
+	userIsSet, err := env.Backend.IsUserIdentitySet()
 	if err != nil {
 		_ = env.Backend.Close()
 		return err
+	}
+	if userIsSet {
+		err = env.Backend.ClearUserIdentity()
+		if err != nil {
+			_ = env.Backend.Close()
+			return err
+		}
+	}
+	// the user identity was possibly the only git-bug setting
+	settings, err := env.Backend.LocalConfig().ReadAll("git-bug")
+	if err != nil {
+		_ = env.Backend.Close()
+		return err
+	}
+	if len(settings) > 0 {
+		err = env.Backend.LocalConfig().RemoveAll("git-bug")
+		if err != nil {
+			_ = env.Backend.Close()
+			return err
+		}
 	}
 
 	storage := env.Backend.LocalStorage()
